@@ -26,6 +26,9 @@ W[("C07", "lone_dash_or_empty_word")] = {"op": "parse", "in": {"tree": T2, "word
 W[("C07", "subcommand_after_parent_flags")] = {"op": "parse", "in": {"tree": T1, "words": ["--loc", "v", ""]}}
 W[("C01", "shorthand_series_after_dash")] = {"op": "parse", "in": {"tree": T2, "words": ["--", "-c"]}}
 W[("C20", "complete_protocol_positional_from_dash_slot")] = {"op": "ccomplete", "in": {"tree": T2, "words": [""], "cobraSide": False}}
+_E = lambda shell, word, desc: {"op": "entry", "in": {"tree": T1, "variant": 6, "ancestor": "fish", "args": [shell, "root", word], "env": {}, "desc": desc}}
+W[("C18", "zsh_framing_control_chars")] = _E("zsh", "-\x01", "plain")
+W[("C18", "bashble_unsanitised_entry")] = _E("bash-ble", "", "a\tb")
 lines = [json.dumps({"op": w["op"], "id": "%s#%s" % k, "in": w["in"]}) for k, w in W.items()]
 h = subprocess.run(['/verif/bin/harness', 'run'], input="\n".join(lines).encode(), stdout=subprocess.PIPE)
 d = subprocess.run(['/verif/bin/driver'], input=h.stdout, stdout=subprocess.PIPE)
